@@ -635,7 +635,7 @@ def _run_histories(ctx, nrandom, do_model=True):
             ctx.count("histories_skipped_no_inotify_instance")
             continue
         except Exception as e:  # noqa: BLE001  (e.g. change_loop died: the wrapper re-raises on exit)
-            sig = f"history:exception:{type(e).__name__}"
+            sig = _died_signature(e) if not isinstance(e, (TimeoutError, asyncio.TimeoutError)) else f"history:exception:{type(e).__name__}"
             ctx.count("histories_crashed")
             if sig not in seen:
                 seen.add(sig)
@@ -894,6 +894,18 @@ def _run_phased(ctx, nrandom=0):
         except D.InotifyUnavailable:
             ctx.count("histories_skipped_no_inotify_instance")
             continue
+        except (TimeoutError, asyncio.TimeoutError):
+            raise
+        except Exception as e:  # noqa: BLE001  the code under test raised: an outcome of the case
+            sig = _died_signature(e)
+            ctx.count("phased_histories_wrapper_died")
+            if sig not in seen:
+                seen.add(sig)
+                ctx.add_failure("oracle", f"rebuild-vs-restart:{name}", sig,
+                                f"{name}: phases {phases!r}: the watcher raised {type(e).__name__}: {e}",
+                                witness={"case": name, "phased": True, "synthetic": synthetic, "project": spec, "phases": phases,
+                                         "exception": f"{type(e).__name__}: {e}"})
+            continue
         ctx.case(("phased", name), nontrivial=any(ph["items"] for ph in res["phases"]))
         ctx.count("phased_histories")
         if name in PHASED_EXPECT:
@@ -992,6 +1004,9 @@ def _watchset_term(r):
 
 
 WS_REQUESTS = ["d5/a", "d5/a/b", "d2/n/m/k", "d1/sub/k/l", "d9/sub", "d1", "d7"]
+# `mv d2 d9 && rmdir d9` before the wrapper handles MOVED_FROM|ISDIR d2: the kernel has dropped the watch of the removed
+# directory, change_loop's rm_watch raises OSError EINVAL and the task dies (finding C14-rmwatch, model: WatchSet rm_dropped)
+WS_DIED = {"mv-then-rmdir-in-one-go": [[["mv", "d2", "d9"], ["rmdir", "d9"]]]}
 WS_DEEP = {
     "request-2-missing-levels": (["d5/a"], [[["mkdir", "d5"]], [["mkdir", "d5/a"]]]),
     "request-3-missing-levels-at-once": (["d5/a/b"], [[["mkdir", "d5"], ["mkdir", "d5/a"], ["mkdir", "d5/a/b"]]]),
@@ -999,9 +1014,29 @@ WS_DEEP = {
 }
 
 
+def _died_signature(e):
+    """An exception of the code under test is an OUTCOME of the case.  Signature = where in /repo it was raised
+    + what + the distinguishing circumstance read from the innermost /repo frame."""
+    import errno as _errno
+    import traceback
+    frames = [f for f in traceback.extract_tb(e.__traceback__) if "/stepup/core/" in f.filename]
+    where = frames[-1].name if frames else "?"
+    line = (frames[-1].line or "") if frames else ""
+    what = type(e).__name__
+    if isinstance(e, OSError) and e.errno:
+        what += "-" + _errno.errorcode.get(e.errno, str(e.errno))
+    circ = "rm_watch-of-a-watch-the-kernel-already-dropped" if "rm_watch" in line and isinstance(e, OSError) \
+        else (line.strip()[:60].replace(" ", "_") or "unknown")
+    return f"watcher-died:{where}:{what}:{circ}"
+
+
+SIG_RMWATCH = "watcher-died:change_loop:OSError-EINVAL:rm_watch-of-a-watch-the-kernel-already-dropped"
+
+
 def _watchset_cases(ctx, nrandom):
     rng = ctx.rng
-    cases = [(n, b, ()) for n, b in WS_NAMED.items()] + [(n, b, rq) for n, (rq, b) in WS_DEEP.items()]
+    cases = [(n, b, ()) for n, b in WS_NAMED.items()] + [(n, b, rq) for n, (rq, b) in WS_DEEP.items()] + \
+            [(n, b, ()) for n, b in WS_DIED.items()]
     for k in range(nrandom):
         bs = []
         for _ in range(rng.randint(1, 4)):
@@ -1023,11 +1058,28 @@ def _watchset_cases(ctx, nrandom):
             bs = [[op] for op in mk] + bs if rng.random() < 0.5 else [mk] + bs
         cases.append((f"ws-random-{k}", bs, rqs))
     checks, descr = [], []
+    died = set()
     for name, bs, rqs in cases:
         try:
             r = D.run(_watchset_case(bs, rqs), timeout=120)
         except D.InotifyUnavailable:
             ctx.count("histories_skipped_no_inotify_instance")
+            continue
+        except (TimeoutError, asyncio.TimeoutError):
+            raise
+        except Exception as e:  # noqa: BLE001  the real wrapper raised: an outcome of the case, judged by the property
+            sig = _died_signature(e)
+            ctx.case(("watchset", repr(bs), repr(rqs)), nontrivial=True)
+            ctx.count("watchset_cases_wrapper_died")
+            if sig not in died:
+                died.add(sig)
+                ctx.add_failure("oracle", f"watchset:{name}", sig,
+                                f"{name}: directory operations {bs!r} (one inner list = applied before the wrapper ran), requested "
+                                f"directories {list(rqs)!r}: the real AsyncInotifyWrapper died with {type(e).__name__}: {e}; its "
+                                "change_loop task ends, nothing is queued any more, a watch-mode rebuild misses every later change "
+                                "while a restart sees it",
+                                witness={"case": name, "watchset": True, "batches": bs, "requests": list(rqs),
+                                         "exception": f"{type(e).__name__}: {e}"})
             continue
         term = _watchset_term(r)
         if term is None:
@@ -1256,6 +1308,13 @@ def replay(ctx, obj):
         if res["diff"]:
             ctx.add_failure("oracle", f"rebuild-vs-restart:{w.get('case')}", obj["failure"]["signature"],
                             f"replayed: {res['diff']!r}", witness=w)
+    elif w.get("watchset"):
+        try:
+            D.run(_watchset_case(w["batches"], w.get("requests", ())), timeout=120)
+            print("the wrapper survived")
+        except Exception as e:  # noqa: BLE001
+            print("the wrapper died:", type(e).__name__, e)
+            ctx.add_failure("oracle", f"watchset:{w.get('case')}", _died_signature(e), f"replayed: {type(e).__name__}: {e}", witness=w)
     elif w.get("sweep"):
         _model_sweep(ctx)
     elif w.get("phased"):
